@@ -309,7 +309,7 @@ public:
     generator<std::size_t> interval(std::chrono::duration<A,B> dur, std::stop_token token = {}) {
         bool tag;
         std::stop_callback stpc(token,[&]{
-            std::lock_guard _(_mx);
+            //cancel() locks the scheduler itself
             this->cancel(&tag);
         });
         std::size_t counter;
